@@ -93,3 +93,15 @@ def _(repo):
     return "\n".join([defN("seg_empty_group", vals["group_id"]), defN("seg_empty_in_group", vals["in_group_id"]),
                       defN("seg_empty_len", vals["raw_length"]),
                       f"Definition seg_empty_rc : bool := {m.group(1)}."])
+
+
+# CollectionVarInt::decode, 5-byte branch: `num.checked_add(Self::THR_4).context(..)?` (an oversized payload is an
+# error) versus the older `num += Self::THR_4` (overflow: panic in the dev profile, wrap in release)
+@item("cv5_checked")
+def _(repo):
+    body = fn_body(strip_comments(rd(repo, "ragc-common/src/collection.rs")), "decode")
+    if re.search(r"num\s*\.\s*checked_add\(\s*Self::THR_4\s*\)\s*\.\s*context\([^)]*\)\s*\?", body):
+        return "Definition cv5_checked : bool := true."
+    if re.search(r"num\s*\+=\s*Self::THR_4\s*;", body):
+        return "Definition cv5_checked : bool := false."
+    raise Miss("5-byte branch of CollectionVarInt::decode: neither checked_add(THR_4)? nor += THR_4")
